@@ -769,7 +769,7 @@ func checkV2TreeRules(c *Ctx, l *Loaded) {
 // checkCpIncrTable: "prefix + 1" as used for exclusive end bounds: walk one
 // iteration of the carry loop for byte < 0xFF, byte == 0xFF at index > 0 and
 // byte == 0xFF at index 0.
-func checkCpIncrTable(c *Ctx, l *Loaded, rule, label string, fn *ssa.Function) {
+func checkCpIncrTable(c *Ctx, l *Loaded, rule, label string, fn *ssa.Function, tight bool) {
 	if fn == nil {
 		c.anchorMissing(rule, label)
 		return
@@ -826,6 +826,22 @@ func checkCpIncrTable(c *Ctx, l *Loaded, rule, label string, fn *ssa.Function) {
 			got += " ; stuck at " + l.ipos(run.stuck)
 		}
 		c.decide(rule, label+": "+sc.name, l.pos(fn.Pos()), got == sc.want, got, "does `"+got+"`, increment-with-carry is `"+sc.want+"` (a 0xFF byte becomes 0x00 and the carry moves left; all-0xFF overflows to nil)")
+		// the bound used for REVERSE ranges must be tight: cut after the incremented byte ({01 FF} → {02}); the
+		// same-length {02 00} admits the foreign key {02}, on which the reverse cursor starts — and the namespace looks empty
+		if tight && sc.i == 2 && sc.b != 0xFF && run.ret != nil {
+			okCut := false
+			if sl, isSl := stripTrivial(retVal(run.ret, 0)).(*ssa.Slice); isSl && sl.High != nil {
+				if bo, isBo := stripTrivial(sl.High).(*ssa.BinOp); isBo && bo.Op == token.ADD {
+					if k, isC := constInt(bo.Y); isC && k == 1 {
+						if _, isPhi := stripTrivial(bo.X).(*ssa.Phi); isPhi {
+							okCut = true
+						}
+					}
+				}
+			}
+			c.decide(rule, label+": the incremented prefix is cut after the incremented byte", l.ipos(run.ret), okCut, "returns ret[:i+1]",
+				"the incremented prefix keeps its length (carry bytes become 0x00): it is not a tight end bound of the prefix range — for a prefix ending in 0xFF a foreign key (the truncated increment) sorts below it, the reverse iterator of the wrapped store starts on that key, and the namespace appears empty")
+		}
 	}
 }
 
